@@ -127,9 +127,9 @@ def evictSt (s : St) : St :=
   let r := evictAux s.limit s.q s.used s.panicked
   { s with q := r.1, used := r.2.1, panicked := r.2.2.1, hits := r.2.2.2.foldl hitsRemove s.hits }
 
-/-- `DefaultCacheState::put` -/
+/-- `DefaultCacheState::put` (after /repo commit 82a9f7c "zero-sized value removes the cached entry") -/
 def putSt (s : St) (k : Key) (v : Val) : St × Option Val :=
-  if v.size = 0 then (s, none)                       -- zero-size values are ignored (nothing else happens)
+  if v.size = 0 then removeSt s k                    -- zero-size: not cached, but the stale entry is removed
   else if k.size + v.size > s.limit then removeSt s k  -- oversize: "Remove potential stale entry"
   else
     let ent : Ent := { key := k, val := v, expires := s.ttl.map (s.now + ·), stamp := s.tick }
@@ -165,6 +165,11 @@ def dropKeys (s : St) : List Key → St
   | [] => s
   | k :: ks => dropKeys (removeSt s k).1 ks
 
+/-- the pinned upstream `put`, kept only for the witness theorem: a zero-size value returned early
+    (`return None`) and left the entry cached under the key in place -/
+def putStUpstream (s : St) (k : Key) (v : Val) : St × Option Val :=
+  if v.size = 0 then (s, none) else putSt s k v
+
 def stepCore (s : St) : Op → St × Out
   | .put k v => let r := putSt s k v; (r.1, match r.2 with | some v => .some v | none => .none)
   | .get k => let r := getSt s k; (r.1, match r.2 with | some v => .some v | none => .none)
@@ -185,6 +190,21 @@ def run (s : St) : List Op → St × List Out
   | op :: ops =>
     let r := step s op
     let r' := run r.1 ops
+    (r'.1, r.2 :: r'.2)
+
+/-- the pinned upstream code (before 82a9f7c): differs from `step` in `put` only -/
+def stepUpstream (s : St) (op : Op) : St × Out :=
+  match op with
+  | .put k v =>
+    let r := putStUpstream s k v
+    ({ r.1 with tick := r.1.tick + 1 }, match r.2 with | some v => .some v | none => .none)
+  | _ => step s op
+
+def runUpstream (s : St) : List Op → St × List Out
+  | [] => (s, [])
+  | op :: ops =>
+    let r := stepUpstream s op
+    let r' := runUpstream r.1 ops
     (r'.1, r.2 :: r'.2)
 
 /-! ### observations (`len`, `memory_used`, `list_entries`) -/
@@ -240,20 +260,22 @@ def runX (s : St) : List XOp → St × List XOut
     let r' := runX r.1 ops
     (r'.1, r.2 :: r'.2)
 
-/-! ### the finite-map specification: the last value `put` under each key (with its expiry stamp).
-    `ideal = true`: every `put` counts (what "behaves as a map" requires);
-    `ideal = false`: zero-size `put`s are skipped, as the code does. -/
+/-! ### the finite-map specification: the last value `put` under each key, with the expiry stamp
+    (`now + ttl` of that `put`) — EVERY `put` counts, whatever the value's size -/
 
 abbrev Spec := Key → Option (Val × Option Nat)
 
-def specStep (ideal : Bool) (s : St) (m : Spec) : Op → Spec
-  | .put k v =>
-    if v.size = 0 ∧ ideal = false then m
-    else fun k' => if k' = k then some (v, s.ttl.map (s.now + ·)) else m k'
+def specStep (s : St) (m : Spec) : Op → Spec
+  | .put k v => fun k' => if k' = k then some (v, s.ttl.map (s.now + ·)) else m k'
   | _ => m
 
-def runSpec (ideal : Bool) (s : St) (m : Spec) : List Op → St × Spec
+def runSpec (s : St) (m : Spec) : List Op → St × Spec
   | [] => (s, m)
-  | op :: ops => runSpec ideal (step s op).1 (specStep ideal s m op) ops
+  | op :: ops => runSpec (step s op).1 (specStep s m op) ops
+
+/-- the same bookkeeping along the upstream code -/
+def runSpecUpstream (s : St) (m : Spec) : List Op → St × Spec
+  | [] => (s, m)
+  | op :: ops => runSpecUpstream (stepUpstream s op).1 (specStep s m op) ops
 
 end DfModel.Sm.Lru
